@@ -707,6 +707,9 @@ pub struct Engine {
     pub root: PathBuf,
     pub capture: StdoutCapture,
     pub counter: usize,
+    /// directory n2 is started in / directory of the project (they differ with -C)
+    pub scn_dir: PathBuf,
+    pub proj_dir: PathBuf,
 }
 
 pub struct RunResult {
@@ -736,6 +739,8 @@ impl Engine {
             root: root.to_path_buf(),
             capture,
             counter: 0,
+            scn_dir: root.to_path_buf(),
+            proj_dir: root.to_path_buf(),
         }
     }
 
@@ -745,6 +750,10 @@ impl Engine {
         let dir = self.root.join("w");
         let _ = std::fs::remove_dir_all(&dir);
         std::fs::create_dir_all(&dir).expect("scenario dir");
+        self.scn_dir = dir.clone();
+        let dir = if scn.cdir.is_empty() { dir } else { dir.join(&scn.cdir) };
+        std::fs::create_dir_all(&dir).expect("project dir");
+        self.proj_dir = dir.clone();
         std::env::set_current_dir(&dir).expect("chdir");
         CUR_EVENTS.lock().unwrap().clear();
         let world = Rc::new(RefCell::new(World {
@@ -862,11 +871,15 @@ impl Engine {
             let file = inv.file.clone();
             w.set_effs_for(&file);
             w.ev(json!({"e":"invoke","targets":inv.targets,"j":inv.j,"k":inv.k,
-                "adopt":inv.adopt,"file":inv.file,"argv":inv.argv,"explain":inv.explain}));
+                "adopt":inv.adopt,"file":inv.file,"argv":inv.argv,"explain":inv.explain,"cdir":inv.cdir}));
         }
         verif::set_scripted(true);
         verif::install(Box::new(H(world.clone())));
         verif::set_argv(inv.argv.clone());
+        if !inv.cdir.is_empty() {
+            // n2 is started in the scenario directory and has -C <cdir> among its arguments
+            let _ = std::env::set_current_dir(&self.scn_dir);
+        }
         self.capture.begin();
         IN_INVOCATION.store(true, std::sync::atomic::Ordering::SeqCst);
         let res = std::panic::catch_unwind(std::panic::AssertUnwindSafe(|| n2::run::run()));
@@ -921,6 +934,12 @@ impl Engine {
             }
         }
         let (errk, errarg, cyc) = classify_error(&err);
+        // the directory n2 worked in, relative to the one it was started in
+        let cwd_rel = std::env::current_dir()
+            .ok()
+            .and_then(|c| c.strip_prefix(&self.scn_dir).ok().map(|p| p.display().to_string()))
+            .unwrap_or_else(|| "?".to_string());
+        let _ = std::env::set_current_dir(&self.proj_dir);
         // where build logs are now (n2 runs in the scenario's directory): every file named
         // .n2_db at most three levels down
         let mut dbat: Vec<String> = Vec::new();
@@ -941,7 +960,7 @@ impl Engine {
         walk(Path::new("."), "", 3, &mut dbat);
         dbat.sort();
         w.ev(json!({"e":"end","exit":exit,"err":err,"errk":errk,"errarg":errarg,"cyc":cyc,
-            "panic":panic,"dead":dead,"summary":summary,"n":n,"warns":warns,"dbat":dbat}));
+            "panic":panic,"dead":dead,"summary":summary,"n":n,"warns":warns,"dbat":dbat,"cwd":cwd_rel}));
     }
 
     /// Runs a scenario under every completion order (bounded), calling `sink` per run.
